@@ -1,6 +1,7 @@
 import TeaalVerif.Driver.C02
 import TeaalVerif.Nest.Dyn
 import TeaalVerif.Props.C03Nest
+import TeaalVerif.Props.C03Static
 open Lean
 namespace Driver
 open Nest
@@ -39,6 +40,54 @@ def nestDyn (j : Json) : Except String Json := do
   let r := collect S' contribs
   let m := collect S (spec (levels S) (initTerms S env))
   let hyps := decide (C03.DynHyps D S env npre)
+  let base := [("run", jPts r), ("spec", jPts m), ("expected_loops", jLoops (expectedLoops S')), ("leader_found", Json.bool found),
+               ("hyps_ok", Json.bool hyps)]
+  match j.getObjVal? "tree" with
+  | .ok tj =>
+    let s ← HF.stmtOfJson tj
+    return Json.mkObj (base ++ [("actual_loops", jLoops (HF.loopSkeleton s))])
+  | .error _ => return Json.mkObj base
+
+/-- op `nest_statdyn`: static shape splits (header) followed by one dynamic occupancy split inside the loops.
+    `loop1` = loop order after the static splits (outer loops ++ remaining loops, the dynamically split rank unsplit) -/
+def nestStatDyn (j : Json) : Except String Json := do
+  let (S, env) ← einsumSOfJson j
+  let sps ← listOf splitSpecOfJson (← fld j "splits")
+  let L1 ← strList (← fld j "loop1")
+  let npre ← natOf (← fld j "npre")
+  let K ← HF.strOf (← fld j "K")
+  let K1 ← HF.strOf (← fld j "K1")
+  let K0 ← HF.strOf (← fld j "K0")
+  let n ← natOf (← fld j "n")
+  let leader ← HF.strOf (← fld j "leader")
+  let rs' ← strList (← fld j "loop2")
+  let outc := concord L1 S.outRanks
+  let σ0 := List.replicate outc.length 0
+  let A : C02.Cfg := ⟨S.loop.zip S.exts, outc, S.terms, env, σ0⟩
+  let B := C02.applySplits sps A
+  let S1 := C02.partEinsum S B L1
+  let rsU := S1.loop.drop npre
+  let esU := S1.exts.drop npre
+  let eK := ((rsU.zip esU).lookup K).getD 0
+  let es' := rs'.map fun r => if r = K1 ∨ r = K0 then eK else ((rsU.zip esU).lookup r).getD 0
+  let mut leadT := 0
+  let mut leadO := 0
+  let mut found := false
+  for (t, ti) in S1.terms.zipIdx do
+    for (x, oi) in t.tensors.zipIdx do
+      if !found && x.name == leader then
+        leadT := ti; leadO := oi; found := true
+  let D : DynSpec := { K := K, K1 := K1, K0 := K0, n := n, leadT := leadT, leadO := leadO, rsU := rsU, esU := esU, rs' := rs', es' := es',
+                       ranks := S1.terms.map fun t => t.tensors.map fun x => concord rsU x.ranks }
+  let pre := C01.lv S1.outRanks (S1.loop.take npre) (S1.exts.take npre)
+  let contribs := runDyn D S1.outRanks pre (initTerms S1 B.env)
+  let S' : EinsumS := { S1 with loop := S1.loop.take npre ++ rs', exts := S1.exts.take npre ++ es', terms := S1.terms.map (splitTerm K K1 K0) }
+  -- contributions are keyed in the order `outc`; `collect` re-orders keys from `concord S'.loop S.outRanks` to the declared order
+  let Sc : EinsumS := { S' with outRanks := S.outRanks }
+  let r := collect Sc contribs
+  let Sorig : EinsumS := S
+  let m := collect Sorig (spec (levels Sorig) (initTerms Sorig env))
+  let hyps := decide (C03.StatDynHyps S env sps L1 D npre σ0)
   let base := [("run", jPts r), ("spec", jPts m), ("expected_loops", jLoops (expectedLoops S')), ("leader_found", Json.bool found),
                ("hyps_ok", Json.bool hyps)]
   match j.getObjVal? "tree" with
